@@ -2398,7 +2398,7 @@ class SFTPGlob:
 
             # A directory entry is a single path component, so don't trust
             # a listing which claims otherwise
-            if filename in (b'.', b'..') or b'/' in filename:
+            if filename in (b'', b'.', b'..') or b'/' in filename:
                 continue
 
             if not pattern or fnmatch(filename, pattern):
@@ -4048,9 +4048,11 @@ class SFTPClient:
                         continue
 
                     # Don't let a name returned by the source refer to
-                    # something outside of the directory being copied, or
-                    # show up again after it was created as a symlink
-                    if b'/' in filename or filename in seen_names or \
+                    # something outside of the directory being copied, to
+                    # that directory itself, or show up again after it was
+                    # created as a symlink
+                    if not filename or b'/' in filename or \
+                            filename in seen_names or \
                             (sys.platform == 'win32' and b'\\' in filename):
                         exc = SFTPBadMessage('Invalid filename in directory '
                                              'listing')
@@ -7859,7 +7861,14 @@ class SFTPServer:
 
         """
 
-        os.rmdir(_to_local_path(self.map_path(path)))
+        path = self.map_path(path)
+
+        # The entry for the root itself is in a directory outside of it
+        if self._chroot and \
+                posixpath.normpath(path) == posixpath.normpath(self._chroot):
+            raise SFTPPermissionDenied('Root directory can\'t be removed')
+
+        os.rmdir(_to_local_path(path))
         return None
 
     def realpath(self, path: bytes) -> MaybeAwait[bytes]:
